@@ -61,6 +61,8 @@ func Main(args []string) int {
 			return checkC05conc()
 		case "C09conc":
 			return checkC09conc()
+		case "C08conc":
+			return checkC08conc()
 		}
 	case "replay":
 		if len(args) < 2 {
@@ -73,7 +75,7 @@ func Main(args []string) int {
 		}
 		return racePass(args[1])
 	}
-	fmt.Fprintln(os.Stderr, "usage: ed check C15|C10conc|C05mon|C18atom|C03conc|C13conc|C14conc|C14ctl|C01conc|C06conc|C12conc|C17conc|C16conc|C04conc|C02conc|C10prom|C05conc|C09conc | ed replay <file> | ed racepass <id> | ed worker")
+	fmt.Fprintln(os.Stderr, "usage: ed check C15|C10conc|C05mon|C18atom|C03conc|C13conc|C14conc|C14ctl|C01conc|C06conc|C12conc|C17conc|C16conc|C04conc|C02conc|C10prom|C05conc|C09conc|C08conc | ed replay <file> | ed racepass <id> | ed worker")
 	return 2
 }
 
@@ -834,7 +836,7 @@ func checkSimple(prop, harness, evName string) int {
 		if tier == "thorough" {
 			levels = append(levels, Bounds{4, 0, 4})
 		}
-	case "C01conc", "C06conc", "C12conc", "C17conc", "C16conc":
+	case "C01conc", "C06conc", "C12conc", "C17conc", "C16conc", "C08conc":
 		for _, cf := range c01Configs(harness, tier) {
 			cf := cf
 			jobs = append(jobs, Job{Harness: harness, C01: &cf})
@@ -1049,7 +1051,7 @@ func simpleAssumptions(h string) []string {
 			"reference = every sequential order of the same calls, each run to quiescence, AddReplica counting as two events (check+factory.Create | attach) as in E-B's event alphabet; monitor failure = an error put on the backend's monitor channel; the StopMonitoring branch of monitorPing is played by a stub thread",
 			"outcome = per-call results (ok/err, n, data digest) + canonical final state (controller membership, modes, ReadOnly, RW count, checkpoint, reader/writer counts; every node's state, mode, revision counter, chain with generated names renamed, checkpoint, data digest)",
 		}
-	case "C01conc", "C06conc", "C12conc", "C17conc", "C16conc":
+	case "C01conc", "C06conc", "C12conc", "C17conc", "C16conc", "C08conc":
 		return []string{
 			"ONE real on-disk replica.Server per execution (3 blocks; chain a1 (automatic, base) < a2 (automatic) < u3 (user) < a4 (automatic, latest) < head, every block rewritten along the way), package replica under the scheduler: Server.RWMutex, Replica.RWMutex (writer preference modelled), rmLock, revisionLock are scheduling points; file-system calls, FIEMAP and the coalesce (sparse.FoldFile, as the sfold child does it) run atomically between two points; reclamation off, the hole puncher's drain branch is a managed stub thread",
 			"threads call what the RPC server (WriteAt aligned/unaligned, ReadAt aligned/unaligned) and the REST server / cleaner call (Snapshot, prepare+coalesce+RemoveDiffDisk of a2 as three calls, Revert to u3, Reload, reload-without-preload + UpdateLUNMap, Resize, SetReplicaMode, SetRevisionCounter, Close)",
